@@ -650,3 +650,75 @@ Definition merge_simpleb (ops : list instr) : bool :=
     end
   | Err _ => false
   end.
+
+(* ---- opcodes.py: _add_setup_except (the part that inserts opcodes) / _add_exception_block ------------------ *)
+(* offset_to_op as a list sorted by key.  Keys: a real opcode at byte offset o has key 2*o+1; the synthetic
+   float keys o-0.5 / o+0.5 are 2*o / 2*o+2 (so `key - 0.5` is key-1, `key + 0.5` is key+1, and < is preserved).
+   The jump-marking half of _add_setup_except (push_exc_block / pop_exc_block) is not modelled. *)
+Record xitem := mkX { x_key : N; x_opc : N; x_line : N (* 0 = None *); x_preset : option N }.
+Record exc_entry := mkE { e_start : N; e_end : N (* pycnite's inclusive end *); e_target : N; e_lasti : bool }.
+
+Definition key_of (off : N) : N := 2 * off + 1.
+
+(* offset_to_op[k] = op *)
+Fixpoint put_x (it : xitem) (l : list xitem) : list xitem :=
+  match l with
+  | [] => [it]
+  | h :: t => if N.ltb (x_key it) (x_key h) then it :: l
+              else if N.eqb (x_key it) (x_key h) then it :: t
+              else h :: put_x it t
+  end.
+Definition find_x (k : N) (l : list xitem) : option xitem := find (fun it => N.eqb (x_key it) k) l.
+
+(* max(i for i in offset_to_op if i < k) *)
+Definition max_key_below (k : N) (l : list xitem) : option N :=
+  fold_left (fun acc it => if N.ltb (x_key it) k
+                           then Some (match acc with Some a => N.max a (x_key it) | None => x_key it end)
+                           else acc) l None.
+
+Definition add_exception_block (items : list xitem) (e : exc_entry) : res (list xitem) :=
+  match find_x (key_of (e_start e)) items with
+  | None => Err 30                                                   (* offset_to_op[e.start] *)
+  | Some start_op =>
+    let setup := mkX (key_of (e_start e) - 1) op_SETUP_EXCEPT_311 (x_line start_op) (Some (key_of (e_target e))) in
+    let items1 := put_x setup items in                               (* offset_to_op[e.start - 0.5] = setup_op *)
+    match find_x (key_of (e_target e)) items1 with
+    | None => Err 31                                                 (* offset_to_op[e.target] *)
+    | Some _ =>
+      let endk := match find_x (key_of (e_end e)) items1 with        (* if e.end not in offset_to_op: max(...) *)
+                  | Some _ => Some (key_of (e_end e))
+                  | None => max_key_below (key_of (e_end e)) items1
+                  end in
+      match endk with
+      | None => Err 32                                               (* max() of an empty sequence *)
+      | Some k =>
+        match find_x k items1 with
+        | None => Err 35
+        | Some end_op => Ok (put_x (mkX (k + 1) op_POP_BLOCK (x_line end_op) None) items1)   (* [end + 0.5] = pop_op *)
+        end
+      end
+    end
+  end.
+
+Fixpoint add_setup_except_loop (entries : list exc_entry) (seen : list N) (items : list xitem) : res (list xitem) :=
+  match entries with
+  | [] => Ok items
+  | e :: rest =>
+    match find_x (key_of (e_target e)) items with
+    | None => Err 33
+    | Some t =>
+      if memN (x_opc t) ignored_exception_targets then add_setup_except_loop rest seen items
+      else
+        match find_x (key_of (e_start e)) items with
+        | None => Err 34
+        | Some s =>
+          let line := x_line s in
+          if negb (e_lasti e) && negb (memN line seen)
+          then bind (add_exception_block items e) (add_setup_except_loop rest (line :: seen))
+          else add_setup_except_loop rest seen items
+        end
+    end
+  end.
+
+Definition add_setup_except (entries : list exc_entry) (items : list xitem) : res (list xitem) :=
+  add_setup_except_loop entries [] items.
